@@ -708,13 +708,20 @@ def run_c06(rep, tier):
     unre = dict(sub_n=2, fixed={'t_0_2': False, 't_1_2': False}, audit=False)
     tasks += [('CTL', 3, ch, dict(unre)) for ch in chunks(ctlf[:20], 10)]
     tasks += [('CTLS', 3, [x], dict(unre)) for x in ctlsf[:2]] + [('LTL', 3, [x], dict(unre)) for x in ltlf[:2]]
+    # four states under 6 (quick) / all 23 (thorough) non-identity orders: formulas over p only, the 16 p-labellings forked, q never holds
+    p4 = [list(p) for p in itertools.permutations(range(4))][1:]
+    p4 = p4 if tier == 'thorough' else [[3, 2, 1, 0], [1, 2, 3, 0], [3, 0, 1, 2], [1, 0, 3, 2], [0, 2, 1, 3], [2, 3, 0, 1]]
+    for pm in p4:
+        for vals in itertools.product([False, True], repeat=4):
+            fx = dict({'l_q_%d' % i: False for i in range(4)}, **{'l_p_%d' % i: v for i, v in enumerate(vals)})
+            tasks.append(('CTL', 4, ['E G p', 'A F p', 'E G not p'], dict(perm=pm, fixed=fx, audit=False)))
     if tier == 'thorough':
         for pm in [list(p) for p in itertools.permutations(range(4))][1::3]:
             for fx in list(label_forks(4))[::37]:
                 tasks.append(('CTL', 4, formulas.CTL_SINGLE[7:], dict(perm=pm, fixed=fx, audit=False)))
     done = run_tasks(rep, 'C06', tasks, ('verdict', 'noexc', 'unwind', 'stable'), 'modelcheck == reference semantics under this presentation (order / naming / tie order / unreachable extra state)',
                      mem_heavy=True)
-    rep.cov['bounds'].update(orders='all 6 at n=3 for CTL; swap at n=2 for LTL/CTL*' + ('; 8 of 24 at n=4' if tier == 'thorough' else ''), tie_seeds=len(list(seeds)),
+    rep.cov['bounds'].update(orders='all 6 at n=3 for CTL; swap at n=2 for LTL/CTL*; n=4: %d orders x 16 p-labellings for E G p, A F p, E G not p' % len(p4) + ('; 8 of 24 at n=4 for further formulas' if tier == 'thorough' else ''), tie_seeds=len(list(seeds)),
                              state_types='ints, strings, tuples, mixed int/str/tuple', atom_renamings=2)
     rep.cov['programs'] = len(ctlf) + len(ltlf) + len(ctlsf)
     rep.cov['states'] = done
